@@ -206,7 +206,10 @@ type c18Env struct {
 	hitsBefore   int
 	hitsAfter    int
 	restartOnDup bool
-	forceFail    int // next beforePublish hits fail unconditionally (still <= 2 per event)
+	expiry       bool          // consumers expire on their own in this scenario
+	noAuto       bool          // no auto-pausing streams
+	forceFail    int           // next beforePublish hits fail unconditionally (still <= 2 per event)
+	gate         chan struct{} // when set, beforePublish waits for it (bounded)
 	wantRestart  bool
 	known        map[uint64]c18Entry
 	heard        int
@@ -307,6 +310,15 @@ func (e *c18Env) installHooks(failBudget, dupBudget, failPct, dupPct int, restar
 		}
 		id, _ := a[1].(uint64)
 		e.mu.Lock()
+		gate := e.gate
+		e.mu.Unlock()
+		if gate != nil {
+			select {
+			case <-gate:
+			case <-time.After(90 * time.Second):
+			}
+		}
+		e.mu.Lock()
 		defer e.mu.Unlock()
 		e.hitsBefore++
 		if e.faultsOn && e.forceFail > 0 && e.perEvent[id] < 2 {
@@ -360,6 +372,7 @@ func (e *c18Env) close() {
 	for _, r := range e.removers {
 		r()
 	}
+	e.drainGroups()
 	// Do not stop a server that is still replaying its Raft log: Stop() during
 	// the replay makes the FSM panic in finishedRecovery ("failed to subscribe
 	// to NATS: connection closed") - a shutdown defect outside this property
@@ -387,6 +400,7 @@ func (e *c18Env) close() {
 		// driver after the process has ended.  Removing it here can make a
 		// partition goroutine that outlived Server.Stop() panic in
 		// checkpointHWLoop ("cannot create temp file") and kill the harness.
+		c18Stage("stopping")
 		e.c.Stop()
 	}
 }
@@ -645,7 +659,7 @@ func (e *c18Env) genOp(maxRF int32, allowInternal bool) c18Op {
 				}
 			}
 			op := c18Op{Kind: "create", Stream: name, NParts: int32(e.rng.Range(1, 3)), RF: int32(e.rng.Range(1, int(maxRF)))}
-			if e.rng.Chance(1, 8) {
+			if e.rng.Chance(1, 8) && !e.noAuto {
 				op.AutoMs = int64(e.rng.Range(300, 900))
 			}
 			return op
@@ -797,10 +811,32 @@ func (e *c18Env) doOp(op c18Op) {
 	e.step("%s", op)
 }
 
+// drainGroups: in scenarios with expiring consumers, wait until every consumer
+// has expired before a server is stopped.  Server.Stop() while the FSM applies
+// a LEAVE_CONSUMER_GROUP deadlocks (metadataAPI.Reset takes mu then
+// consumerGroupsMu, RemoveConsumerFromGroup holds consumerGroupsMu and reaches
+// mu through countStreamPartitions) - a shutdown defect outside this property
+// that would only hang the harness.
+func (e *c18Env) drainGroups() {
+	if !e.expiry || e.c == nil {
+		return
+	}
+	vfWait(15*time.Second, func() bool {
+		for _, n := range e.c.Running() {
+			if srv := n.Server(); srv != nil && len(srv.metadata.GetConsumerGroups()) > 0 {
+				return false
+			}
+		}
+		return true
+	})
+	e.groups = map[string]map[string]bool{}
+}
+
 // restartNode stops a server and starts it again on the same data directory.
 func (e *c18Env) restartNode(id string) bool {
 	e.step("restart(%s)", id)
 	e.absorbStore(e.c.Nodes[id].Server(), id)
+	e.drainGroups()
 	c18Stage("stopping")
 	if err := e.c.StopNode(id); err != nil {
 		e.logf("stop %s: %v", id, err)
@@ -1025,6 +1061,20 @@ func (e *c18Env) finish(fenceName string) {
 	}
 }
 
+// activityReplicas returns the replication of the __activity partition as the
+// metadata leader knows it.
+func (e *c18Env) activityReplicas() int {
+	srv := e.c.metaLeaderNow()
+	if srv == nil {
+		return 0
+	}
+	p := srv.metadata.GetPartition(c18ActivityStream, 0)
+	if p == nil {
+		return 0
+	}
+	return len(p.GetReplicas())
+}
+
 // stuckActivityPartition is the precise stuck-state predicate used instead of
 // the watchdog: the controller has applied operations since its start (the
 // fence was accepted through its API, so the FSM's recovery decision is made
@@ -1081,7 +1131,11 @@ func (e *c18Env) account() {
 	e.rep.Count("api_ops_ok", int64(e.opsOK))
 	e.rep.Count("api_ops_refused", int64(e.opsErr))
 	if !e.inconc && !e.failed && e.opsOK >= 6 && e.nFail+e.nDup+e.restarts+e.failovers > 0 {
-		e.rep.Nontrivial(fmt.Sprintf("%s|%s|f%d d%d r%d o%d", e.unit, strings.Join(e.steps, " "), e.nFail, e.nDup, e.restarts, e.failovers))
+		sig := fmt.Sprintf("%s|%s|f%d d%d r%d o%d", e.unit, strings.Join(e.steps, " "), e.nFail, e.nDup, e.restarts, e.failovers)
+		e.rep.Nontrivial(sig)
+		if f := os.Getenv("C18_SIG_FILE"); f != "" {
+			os.WriteFile(f, []byte(sig), 0644)
+		}
 	}
 	e.rep.Sample(map[string]any{"unit": e.unit, "run": e.run, "seed": e.seed, "steps": append([]string(nil), e.steps...),
 		"injected_publish_failures": e.nFail, "injected_published_not_recorded": e.nDup, "restarts": e.restarts, "failovers": e.failovers,
